@@ -69,6 +69,11 @@ class Outcome:
         self.stdout = stdout
         self.pretty = pretty
 
+    @property
+    def cls(self):
+        """outcome class used for reachability: accepted vs rejected (clean error or uncaught exception)"""
+        return 'ok' if self.kind == 'ok' else 'rejected'
+
     def __getitem__(self, i):       # outcome_class() convenience
         return (self.kind,)[i]
 
@@ -319,7 +324,25 @@ def _wrap_numbers(cfg):
         for d in pre.get('data', []) or []:
             if isinstance(d.get('address'), builtins.int):
                 d['address'] = E.SymInt(E.bvval(d['address']))
+    _wrap_enum_keys(cfg)
     return cfg
+
+
+def _wrap_enum_keys(node):
+    """numeric_enumeration dictionaries are looked up with the operand value: make their keys proxies as well"""
+    if isinstance(node, dict):
+        if node.get('type') == 'numeric_enumeration':
+            for part in ('bytecode', 'argument'):
+                d = node.get(part, {}).get('value_dict') if isinstance(node.get(part), dict) else None
+                if isinstance(d, dict):
+                    node[part]['value_dict'] = {
+                        (E.SymInt(E.bvval(k)) if isinstance(k, builtins.int) and not isinstance(k, bool) else k): v
+                        for k, v in d.items()}
+        for v in list(node.values()):
+            _wrap_enum_keys(v)
+    elif isinstance(node, list):
+        for v in node:
+            _wrap_enum_keys(v)
 
 
 def eval_under(model: dict, x):
